@@ -25,6 +25,7 @@ thread_local! {
     static QUARANTINE: Cell<bool> = Cell::new(false);
     static DEAD_RANGES: RefCell<Vec<(usize, usize)>> = RefCell::new(Vec::new());
     static UAF_COUNT: Cell<usize> = Cell::new(0);
+    static ANNOUNCED_CHUNKS: RefCell<Vec<usize>> = RefCell::new(Vec::new());
 }
 
 /// Event classes (bits of the mask given to `enable`).
@@ -33,8 +34,10 @@ pub const EV_INTERN: u32 = 2;
 pub const EV_VM: u32 = 4;
 pub const EV_PARSE: u32 = 8;
 pub const EV_ALLOC: u32 = 16;
+pub const EV_OPS: u32 = 32;
 
 pub fn enable(mask: u32) {
+    forget_chunks();
     let _ = ENABLED.try_with(|e| e.set(true));
     let _ = EVENT_MASK.try_with(|m| m.set(mask));
 }
@@ -78,6 +81,27 @@ pub fn json_str(s: &str) -> String {
     }
     out.push('"');
     out
+}
+
+/// Instruction events (EV_OPS) name the chunk being executed by its address; the
+/// chunk's contents are emitted once, before the first instruction event that
+/// names it.  Returns true when `address` has not been announced yet.
+pub(crate) fn announce_chunk(address: usize) -> bool {
+    ANNOUNCED_CHUNKS
+        .try_with(|a| {
+            let mut a = a.borrow_mut();
+            if a.contains(&address) {
+                false
+            } else {
+                a.push(address);
+                true
+            }
+        })
+        .unwrap_or(false)
+}
+
+pub fn forget_chunks() {
+    let _ = ANNOUNCED_CHUNKS.try_with(|a| a.borrow_mut().clear());
 }
 
 /// Collector control.
